@@ -373,8 +373,37 @@ def k4(chk, repo):
         chk.ok("K4", "CreateRHS.compute: no masked store", c.where, "load path fully linear")
 
 
+def k5(chk, repo):
+    """the displacements reported are the FEM solution, unmodified"""
+    from ..model import component_model
+    from ..symx import SymX
+
+    chk.rule("K5", "Disp reports the solution of the beam system itself: disp is disp_aug without the six Lagrange multipliers, reshaped, with no element overwritten or rescaled afterwards (so the reported displacements satisfy the equilibrium that FEM solved, for every mesh size and symmetry option)", min_decided=1)
+    c = repo.cls("openaerostruct/structures/disp.py", "Disp")
+    m = component_model(repo, c, domains=(SymX,))
+    for r in m.runs.get("compute", []):
+        if r.final is None:
+            continue
+        from .common import sig_txt
+
+        key = "Disp.compute %s" % sig_txt(r.sigma)
+        ob = r.final.heap.get(("out", "disp"))
+        d = ob.dom.get("SYMX") if ob is not None else None
+        extra = [e for e in r.events if e.kind == "store" and e.d.get("cell") == ("out", "disp") and (e.d.get("csubs") or e.d.get("op") != "=")]
+        if extra:
+            e = extra[0]
+            chk.violation("K5", key, "%s:%d" % (c.mod.rel, e.lineno), "after copying the solution, Disp modifies it (%s %s ...): the reported displacements are no longer the solution of K u = f" % (e.d.get("target"), e.d.get("op")))
+        elif d is not None and str(d) == "disp_aug[:-6]":
+            chk.ok("K5", key, c.where, "disp = disp_aug[:-6] reshaped")
+        elif d is None:
+            chk.undecided("K5", key, c.where, "expression not extracted")
+        else:
+            chk.violation("K5", key, c.where, "disp = %s, expected disp_aug[:-6] (the solution without the Lagrange multipliers)" % d)
+
+
 def run(chk, repo, tier):
     k1(chk, repo)
     k2(chk, repo)
     k3(chk, repo)
     k4(chk, repo)
+    k5(chk, repo)
